@@ -126,5 +126,128 @@ def c11_disp_transfer(rng, tier):
     return out
 
 
+# ---------------------------------------------------------------------------------------
+# C16
+# ---------------------------------------------------------------------------------------
+G = 9.80665
+
+
+def _nodes_of(s):
+    m = s["mesh"]; w = s["fem_origin"]
+    return (1 - w) * m[0] + w * m[-1]
+
+
+@oracle("C16", "mass_cg")
+def c16_mass_cg(rng, tier):
+    from openaerostruct.structures.weight import Weight
+    from openaerostruct.structures.structural_cg import StructuralCG
+    nx, ny = _pick_size(rng, tier)
+    sym = bool(rng.integers(2))
+    s = gen.base_surface(rng, nx, ny, sym)
+    nodes = _nodes_of(s)
+    A = rng.uniform(1e-3, 5e-2, size=ny - 1)
+    p = comp_problem(Weight(surface=s), dict(A=A, nodes=nodes))
+    sm = float(p.get_val("structural_mass")[0]); em = np.array(p.get_val("element_mass"))
+    L = np.linalg.norm(nodes[1:] - nodes[:-1], axis=1)
+    req = s["mrho"] * s["wing_weight_ratio"] * np.sum(A * L) * (2 if sym else 1)
+    out = []
+    if abs(sm - req) > 1e-10 * abs(req):
+        out.append(_fail("structural mass != rho*wwr*sum(A L) (x2 if symmetric)", sm, req, ny=ny, symmetry=sym))
+    p2 = comp_problem(StructuralCG(surface=s), dict(nodes=nodes, structural_mass=sm, element_mass=em))
+    cg = np.array(p2.get_val("cg_location"))
+    mid = 0.5 * (nodes[1:] + nodes[:-1])
+    cen = (mid * em[:, None]).sum(axis=0) / em.sum()
+    if sym:
+        cen[1] = 0.0
+    if np.max(np.abs(cg - cen)) > 1e-10 * max(np.abs(cen).max(), 1.0):
+        out.append(_fail("cg is not the mass-weighted centroid", cg, cen, ny=ny, symmetry=sym))
+    return out
+
+
+def _check_loads(out, what, loads, nodes, F_req, M_req, **case):
+    F = loads[:, :3].sum(axis=0)
+    M = loads[:, 3:].sum(axis=0) + np.cross(nodes, loads[:, :3]).sum(axis=0)
+    fs = max(np.abs(F_req).max(), 1e-30)
+    if np.max(np.abs(F - F_req)) > 1e-9 * fs:
+        out.append(_fail(what + ": total force", F, F_req, **case))
+    ms = max(np.abs(M_req).max(), fs)
+    if np.max(np.abs(M - M_req)) > 1e-8 * ms:
+        out.append(_fail(what + ": total moment about the origin", M, M_req, **case))
+
+
+@oracle("C16", "distributed_loads")
+def c16_distributed(rng, tier):
+    from openaerostruct.structures.wing_weight_loads import StructureWeightLoads
+    from openaerostruct.structures.fuel_loads import FuelLoads
+    from openaerostruct.structures.wingbox_fuel_vol_delta import WingboxFuelVolDelta
+    nx, ny = _pick_size(rng, tier)
+    sym = bool(rng.integers(2))
+    s = gen.base_surface(rng, nx, ny, sym)
+    s["Wf_reserve"] = float(rng.uniform(0, 2000.0)); s["fuel_density"] = float(rng.uniform(700, 850))
+    nodes = _nodes_of(s)
+    mid = 0.5 * (nodes[1:] + nodes[:-1])
+    em = rng.uniform(1.0, 50.0, size=ny - 1)
+    lf = float(rng.uniform(0.5, 2.5))
+    out = []
+    p = comp_problem(StructureWeightLoads(surface=s), dict(element_mass=em, nodes=nodes, load_factor=lf))
+    W = em * G * lf
+    Fe = np.zeros((ny - 1, 3)); Fe[:, 2] = -W
+    _check_loads(out, "structural weight loads", np.array(p.get_val("struct_weight_loads")), nodes,
+                 Fe.sum(axis=0), np.cross(mid, Fe).sum(axis=0), ny=ny, symmetry=sym)
+    vols = rng.uniform(0.1, 2.0, size=ny - 1)
+    fm = float(rng.uniform(1e3, 3e4))
+    p = comp_problem(FuelLoads(surface=s), dict(nodes=nodes, fuel_vols=vols, fuel_mass=fm, load_factor=lf))
+    fw = (fm + s["Wf_reserve"]) * G * lf / (2 if sym else 1)
+    Fe = np.zeros((ny - 1, 3)); Fe[:, 2] = -fw * vols / vols.sum()
+    _check_loads(out, "fuel weight loads", np.array(p.get_val("fuel_weight_loads")), nodes,
+                 Fe.sum(axis=0), np.cross(mid, Fe).sum(axis=0), ny=ny, symmetry=sym)
+    p = comp_problem(WingboxFuelVolDelta(surface=s), dict(fuelburn=fm, fuel_vols=vols))
+    req = vols.sum() - (fm + s["Wf_reserve"]) / (2 if sym else 1) / s["fuel_density"]
+    got = float(p.get_val("fuel_vol_delta")[0])
+    if abs(got - req) > 1e-10 * max(abs(req), vols.sum()):
+        out.append(_fail("fuel volume margin != enclosed volume - required fuel volume", got, req, ny=ny, symmetry=sym))
+    return out
+
+
+@oracle("C16", "point_loads")
+def c16_point_loads(rng, tier):
+    from openaerostruct.structures.compute_point_mass_loads import ComputePointMassLoads
+    from openaerostruct.structures.compute_thrust_loads import ComputeThrustLoads
+    from openaerostruct.structures.total_loads import TotalLoads
+    nx, ny = _pick_size(rng, tier)
+    sym = bool(rng.integers(2))
+    s = gen.base_surface(rng, nx, ny, sym)
+    npm = int(rng.integers(1, 4)); s["n_point_masses"] = npm
+    nodes = _nodes_of(s)
+    locs = np.array([nodes[rng.integers(ny)] + rng.normal(size=3) * np.array([0.5, 0.4, 0.3]) for _ in range(npm)])
+    masses = rng.uniform(100, 5000, size=npm); thr = rng.uniform(1e3, 1e5, size=npm)
+    lf = float(rng.uniform(0.5, 2.5))
+    out = []
+    p = comp_problem(ComputePointMassLoads(surface=s), dict(point_mass_locations=locs, point_masses=masses, nodes=nodes, load_factor=lf))
+    Fp = np.zeros((npm, 3)); Fp[:, 2] = -masses * G * lf
+    pml = np.array(p.get_val("loads_from_point_masses"))
+    _check_loads(out, "point-mass loads", pml, nodes, Fp.sum(axis=0), np.cross(locs, Fp).sum(axis=0), ny=ny, n=npm)
+    w = np.array(p.get_val("nodal_weightings"))
+    if np.max(np.abs(w.sum(axis=1) - 1)) > 1e-12:
+        out.append(_fail("nodal weightings do not sum to 1", w.sum(axis=1), np.ones(npm), ny=ny))
+    p = comp_problem(ComputeThrustLoads(surface=s), dict(point_mass_locations=locs, engine_thrusts=thr, nodes=nodes))
+    Ft = np.zeros((npm, 3)); Ft[:, 0] = -thr
+    tl = np.array(p.get_val("loads_from_thrusts"))
+    _check_loads(out, "thrust loads", tl, nodes, Ft.sum(axis=0), np.cross(locs, Ft).sum(axis=0), ny=ny, n=npm)
+    relief, fuel = bool(rng.integers(2)), bool(rng.integers(2))
+    s["struct_weight_relief"] = relief; s["distributed_fuel_weight"] = fuel
+    inp = dict(loads=rng.normal(size=(ny, 6)) * 1e3, loads_from_point_masses=pml, loads_from_thrusts=tl)
+    req = inp["loads"] + pml + tl
+    if relief:
+        inp["struct_weight_loads"] = rng.normal(size=(ny, 6)) * 1e3; req = req + inp["struct_weight_loads"]
+    if fuel:
+        inp["fuel_weight_loads"] = rng.normal(size=(ny, 6)) * 1e3; req = req + inp["fuel_weight_loads"]
+    p = comp_problem(TotalLoads(surface=s), inp)
+    got = np.array(p.get_val("total_loads"))
+    if relerr(got, req) > 1e-13:
+        out.append(_fail("total loads != sum of enabled sources", got, req, ny=ny, relief=relief, fuel=fuel))
+    return out
+
+
 class Discard(Exception):
     """raised by an oracle when the generated case is outside the property's quantifier"""
